@@ -24,9 +24,14 @@ func (m *MTProto) sendPacket(request tl.Object, expectedTypes ...reflect.Type) (
 		return nil, errors.Wrap(err, "encoding request message")
 	}
 
+	// must write synchroniously, cuz seqno must be upper each request. msgID is generated under the same lock,
+	// cuz server requires msgIDs to increase in the same order as messages are written
+	m.seqNoMutex.Lock()
+	defer m.seqNoMutex.Unlock()
+
 	var (
 		data  messages.Common
-		msgID = utils.GenerateMessageId()
+		msgID = m.nextMsgID()
 	)
 	verifGate("send.genid", request, msgID)
 
@@ -56,10 +61,6 @@ func (m *MTProto) sendPacket(request tl.Object, expectedTypes ...reflect.Type) (
 		}
 	}
 
-	// must write synchroniously, cuz seqno must be upper each request
-	m.seqNoMutex.Lock()
-	defer m.seqNoMutex.Unlock()
-
 	err = m.transport.WriteMsg(data, MessageRequireToAck(request))
 	if err != nil {
 		return nil, errors.Wrap(err, "sending request")
@@ -75,6 +76,17 @@ func (m *MTProto) sendPacket(request tl.Object, expectedTypes ...reflect.Type) (
 	}
 
 	return resp, nil
+}
+
+// nextMsgID returns id for the next message, which is always bigger than previous one, even if system clock
+// stays still or goes back. must be called under seqNoMutex
+func (m *MTProto) nextMsgID() int64 {
+	msgID := utils.GenerateMessageId()
+	if msgID <= m.lastMsgID {
+		msgID = m.lastMsgID + 4 // nolint:gomnd msgID of client must be divisible by 4
+	}
+	m.lastMsgID = msgID
+	return msgID
 }
 
 func (m *MTProto) writeRPCResponse(msgID int, data tl.Object) error {
